@@ -210,6 +210,7 @@ inductive Outcome (α : Type) where
   | unicodeError (start stop : Nat)   -- UnicodeDecodeError / UnicodeEncodeError with `.start`, `.end`
   | osError (errno : Nat)
   | assertion                         -- an `assert` fired
+  | valueError                        -- `outbuf[:n]`: a wchar_t above U+10FFFF cannot become a `str`
   | outOfFuel                         -- the model's fuel ran out (the Python loop has none)
   deriving Repr
 
@@ -268,7 +269,9 @@ def decodeLoop (step : Step) (input : List UInt8) : Nat → Nat → Outcome (Lis
         else
           let produced := outputLen - c.outLeft
           if produced % 4 ≠ 0 then (.assertion, [a])
-          else (.ok ((wchars (c.buf ++ List.replicate (4 * outputLen - c.buf.length) 0)).take (produced / 4)), [a])
+          else
+            let units := (wchars (c.buf ++ List.replicate (4 * outputLen - c.buf.length) 0)).take (produced / 4)
+            if units.any (· > 0x10FFFF) then (.valueError, [a]) else (.ok units, [a])
 
 /-- `_decode_dl(input, encoding=…)` after a successful `iconv_open` (`decode()` returns `''` for empty input first) -/
 def decodeDl (step : Step) (input : List UInt8) (fuel : Nat) : Outcome (List Nat) × List Alloc :=
